@@ -8,8 +8,8 @@
 (* table tbl), "end" (TABLE END), "blank" (first cell empty), "hdr" (a     *)
 (* header line), "junk" (any other text) or "data".  cells[j] is the cell  *)
 (* in column j-1: [k, n, s, off, tz] with k = "e" empty, "n" number n,     *)
-(* "s" string s, "t" timestamp (instant n, UTC offset off, tz = written    *)
-(* with a time zone).  Numbers are lattice integers; the unit of a column  *)
+(* "s" string s, "t" timestamp (instant n in whole seconds plus us         *)
+(* microseconds, UTC offset off, tz = written with a time zone).  Numbers are lattice integers; the unit of a column  *)
 (* is that of the field mapped to it (amount U, price P, fiat U*P).        *)
 (* layout[tbl] maps field names to 0-based columns.                        *)
 (***************************************************************************)
@@ -19,7 +19,7 @@ EarnTypesS == {"airdrop", "hardfork", "income", "interest", "mining", "staking",
 InTypesS   == EarnTypesS \cup {"buy", "gift", "donate"}
 OutTypesS  == {"sell", "gift", "donate", "fee", "lost", "staking"}
 
-EmptyCell == [k |-> "e", n |-> 0, s |-> "", off |-> 0, tz |-> FALSE]
+EmptyCell == [k |-> "e", n |-> 0, s |-> "", off |-> 0, tz |-> FALSE, us |-> 0]
 Cell(r, lay, f) == IF f \in DOMAIN lay /\ lay[f] + 1 <= Len(r.cells) THEN r.cells[lay[f] + 1] ELSE EmptyCell
 
 IsNumOrEmpty(c) == c.k \in {"n", "e"}
@@ -86,7 +86,7 @@ TxIn(r, lay, row) ==
       fin  == IF Cell(r, lay, "fiat_in_no_fee").k = "n" THEN Val(Cell(r, lay, "fiat_in_no_fee")) ELSE amt * pr
       fwf  == IF Cell(r, lay, "fiat_in_with_fee").k = "n" THEN Val(Cell(r, lay, "fiat_in_with_fee")) ELSE fin + ffee
       ts   == Cell(r, lay, "timestamp")
-  IN [row |-> row, t |-> ts.n, off |-> ts.off, type |-> Str(Cell(r, lay, "transaction_type")),
+  IN [row |-> row, t |-> ts.n, us |-> ts.us, off |-> ts.off, type |-> Str(Cell(r, lay, "transaction_type")),
       exch |-> Str(Cell(r, lay, "exchange")), holder |-> Str(Cell(r, lay, "holder")),
       price |-> pr, amt |-> amt, cfee |-> cfee, ffee |-> ffee, fin |-> fin, fwf |-> fwf,
       uid |-> Cell(r, lay, "unique_id")]
@@ -96,7 +96,7 @@ TxOut(r, lay, row) ==
       pr   == Val(Cell(r, lay, "spot_price"))
       cfee == Val(Cell(r, lay, "crypto_fee"))
       ts   == Cell(r, lay, "timestamp")
-  IN [row |-> row, t |-> ts.n, off |-> ts.off, type |-> Str(Cell(r, lay, "transaction_type")),
+  IN [row |-> row, t |-> ts.n, us |-> ts.us, off |-> ts.off, type |-> Str(Cell(r, lay, "transaction_type")),
       exch |-> Str(Cell(r, lay, "exchange")), holder |-> Str(Cell(r, lay, "holder")),
       price |-> pr, amt |-> amt, cfee |-> cfee,
       owf  |-> IF Cell(r, lay, "crypto_out_with_fee").k = "n" THEN Val(Cell(r, lay, "crypto_out_with_fee")) ELSE amt + cfee,
@@ -109,7 +109,7 @@ TxIntra(r, lay, row) ==
       recv == Val(Cell(r, lay, "crypto_received"))
       pr   == Val(Cell(r, lay, "spot_price"))
       ts   == Cell(r, lay, "timestamp")
-  IN [row |-> row, t |-> ts.n, off |-> ts.off,
+  IN [row |-> row, t |-> ts.n, us |-> ts.us, off |-> ts.off,
       fe |-> Str(Cell(r, lay, "from_exchange")), fh |-> Str(Cell(r, lay, "from_holder")),
       te |-> Str(Cell(r, lay, "to_exchange")), th |-> Str(Cell(r, lay, "to_holder")),
       price |-> pr, sent |-> sent, recv |-> recv, ffee |-> (sent - recv) * pr,
@@ -119,7 +119,7 @@ TxIntra(r, lay, row) ==
 (* fiat, no crypto fee left on it) plus an artificial fee-only disposal at the same       *)
 (* instant from the same account.                                                         *)
 SplitIn(x)  == [x EXCEPT !.cfee = 0]
-ArtFee(x)   == [row |-> 0, t |-> x.t, off |-> x.off, type |-> "fee", exch |-> x.exch, holder |-> x.holder,
+ArtFee(x)   == [row |-> 0, t |-> x.t, us |-> x.us, off |-> x.off, type |-> "fee", exch |-> x.exch, holder |-> x.holder,
                 price |-> x.price, amt |-> 0, cfee |-> x.cfee, owf |-> x.cfee, fout |-> 0, ffee |-> x.cfee * x.price,
                 uid |-> x.uid, par |-> x.row]
 
